@@ -650,6 +650,7 @@ func emit(f ...string) {
 	if !ok {
 		return
 	}
+	f = append([]string{strings.TrimSuffix(f[0], "~")}, f[1:]...)
 	em.Count("fam:" + f[0])
 	for _, t := range strings.Fields(res) {
 		switch {
@@ -661,6 +662,48 @@ func emit(f ...string) {
 			em.Count(f[0] + ":err")
 		case t == "rel", t == "flush":
 			em.Count(f[0] + ":" + t)
+		}
+	}
+	if f[0] == "dec" {
+		mode := f[1]
+		if strings.HasPrefix(mode, "brb") {
+			mode = "brb"
+		}
+		em.Count("dec:mode=" + mode)
+		em.Count("dec:span=" + f[3])
+		total := 0
+		for _, l := range parseItems(f[4]) {
+			total += l
+			switch {
+			case l == 0:
+				em.Count("dec:len=0")
+			case l < 128:
+				em.Count("dec:len<128B")
+			case l < 131072:
+				em.Count("dec:len=128B..128KiB")
+			default:
+				em.Count("dec:len>=128KiB")
+			}
+		}
+		if total > 1<<20 {
+			em.Count("dec:run>1MiB(wraps-a-span)")
+		}
+		for _, op := range splitOps(f[5]) {
+			em.Count("dec:op=" + op[:1])
+		}
+	} else {
+		kind := f[1]
+		if f[0] == "rsd" {
+			kind = "-"
+		} else if strings.HasPrefix(kind, "b") {
+			kind = "bytes"
+			if c := atoi(strings.Split(f[1][1:], ":")[len(strings.Split(f[1][1:], ":"))-1]); c > 0 && c&(c-1) == 0 {
+				kind = "bytes-pow2cap"
+			}
+		}
+		em.Count(f[0] + ":kind=" + kind)
+		if strings.Contains(res, " env") {
+			em.Count(f[0] + ":with-env-steps")
 		}
 	}
 	// growths in this history = mallocs - 1 per epoch is not recoverable here; count mallocs per line
@@ -675,7 +718,7 @@ func emit(f ...string) {
 	default:
 		em.Count(f[0] + ":mallocs>3")
 	}
-	em.Line(res, append([]string{f[0] + modeSuffix}, f[1:]...)...)
+	em.Line(res, append([]string{strings.TrimSuffix(f[0], "~") + modeSuffix}, f[1:]...)...)
 }
 
 func replay(lines [][]string, part string) {
